@@ -1245,6 +1245,9 @@ pub fn run(tier: Tier) -> i32 {
     rep.bound("gate_crowd_sizes", format!("{gate_sizes:?} evaluations waiting inside a user function at once, 13 % abandoned, 8 fresh evaluations afterwards"));
     rule_reuse_leg(&mut acc);
     reentrant_leg(&mut acc);
+    // an evaluation reads its input once (c09.rs): a serde input that changes on every read gives
+    // every rule of one evaluation the same reading
+    super::c09::single_read_leg(&mut acc);
     rep.bound("reentrant_leg", "a user function evaluating its own ruleset 1 / 2 / 5 / 40 levels deep (cacheable) and 1 / 2 / 5 / 7 levels deep (not cacheable: 3^depth nested evaluations)");
     let wait = tier.pick(6u64, 65u64);
     real_time_leg(&mut acc, wait);
@@ -1332,6 +1335,7 @@ pub fn replay(case: &serde_json::Value) -> i32 {
         "pile-up" => pile_up_leg(&mut acc, case.get("n").and_then(|n| n.as_u64()).unwrap_or(8) as usize),
         "rule-reuse" => rule_reuse_leg(&mut acc),
         "re-entrant" => reentrant_leg(&mut acc),
+        "single-read" => super::c09::single_read_leg(&mut acc),
         "real-time" => real_time_leg(&mut acc, case.get("seconds").and_then(|n| n.as_u64()).unwrap_or(6)),
         "many-inputs" => many_inputs_leg(&mut acc, 300),
         "repetition" | "long-history" => {
